@@ -74,9 +74,9 @@ def leg_mc(chk, tier):
     else:
         confs = [dict(shapes="{10, 11, 21, 12}", classes=CLASSES12, mode="all", chunks="{3, 4, 5}"),
                  dict(shapes="{31, 13}", classes=CLASSES6, seps="{44}", hk='{"plain"}', mode="all", chunks="{4, 7}"),
-                 dict(shapes="{22, 31, 13}", seps="{44, 32}", mode="uniform", chunks="{3, 4, 7}", ragged="FALSE"),
-                 dict(shapes="{32, 23}", classes=CLASSES4, mode="uniform", chunks="{4, 9}", ragged="FALSE",
-                      hk='{"plain"}', seps="{44, 9}")]
+                 dict(shapes="{22}", seps="{44, 32}", hk='{"plain"}', mode="uniform", chunks="{3, 7}", ragged="FALSE"),
+                 dict(shapes="{32, 23}", classes=CLASSES4, mode="uniform", chunks="{4}", ragged="FALSE",
+                      hk='{"plain"}', seps="{44}")]
     jobs = []
     for i, c in enumerate(confs):
         jobs.append(dict(module="MC_Csv", cfg=write_cfg("mc_csv_%d.cfg" % i, **c), workers=6 if tier == "quick" else 8, timeout=1700, xmx="4g"))
@@ -122,12 +122,12 @@ def generate(chk, tier):
         save_confs = [dict(shapes="{10, 11, 21, 12}", classes=CLASSES12), dict(shapes="{31, 22, 13}", classes=CLASSES6),
                       dict(shapes="{32, 33}", classes=CLASSES4, seps="{44, 9}")]
         load_confs = [dict(shapes="{10, 11, 21}", classes=CLASSES10, seps="{44, 32}", hk='{"plain"}', mode="all"),
-                      dict(shapes="{12}", classes=CLASSES10, seps="{59, 9}", hk='{"nasty"}', mode="all"),
+                      dict(shapes="{12}", classes=CLASSES6, seps="{59, 9}", hk='{"nasty"}', mode="all"),
                       dict(shapes="{31}", classes=CLASSES3, hk='{"plain"}', seps="{124}", mode="all", ragged="FALSE"),
-                      dict(shapes="{22, 31, 13}", classes=CLASSES4, seps="{44, 124}", mode="uniform", ragged="FALSE")]
-        sims = [dict(shapes="{32, 33, 23, 43}", classes=CLASSES_BIG, mode="random", ragged="FALSE", n=6000),
-                dict(shapes="{46, 38, 49}", classes=CLASSES_BIG, mode="random", ragged="FALSE", n=1200),
-                dict(shapes="{32, 23, 44}", classes=CLASSES_BIG, mode="random", n=500)]
+                      dict(shapes="{22, 31, 13}", classes=CLASSES4, seps="{124}", mode="uniform", ragged="FALSE")]
+        sims = [dict(shapes="{32, 33, 23, 43}", classes=CLASSES_BIG, mode="random", ragged="FALSE", n=3000),
+                dict(shapes="{46, 38, 49}", classes=CLASSES_BIG, mode="random", ragged="FALSE", n=600),
+                dict(shapes="{32, 23, 44}", classes=CLASSES_BIG, mode="random", n=300)]
     for i, c in enumerate(save_confs):
         jobs.append(("save", c, dict(module="MC_Csv", workers=4, timeout=1200, xmx="4g", cfg=write_cfg(
             "gen_save_%d.cfg" % i, **dict(c, mode="none", ragged="FALSE", gen="save", inv="Export")))))
@@ -259,6 +259,9 @@ def leg_conformance(chk, tier, tables, texts):
                                     [("load", g["sep"], json.dumps(g["text"])) for g in texts])
     nw = [0]
     for b in range(0, len(items), BATCH):
+        # build() is a cache lookup; repeated because the shared cache is pruned whenever any harness source changes
+        exe32 = build("csv_c32", ["csv_harness.cpp"], groups=("csv",), defines=["BITSERIALIZER_VERIF_ENC_CHUNK_SIZE=32"])
+        exe256 = build("csv_c256", ["csv_harness.cpp"], groups=("csv",))
         conformance_batch(chk, exe32, exe256, items[b:b + BATCH], nw)
 
 
